@@ -3,7 +3,7 @@
 (* The state graph is built field by field so that TLC's workers share the  *)
 (* enumeration; a configuration is complete when stage = "done", and the     *)
 (* invariants are the clauses of property C01 on the specified outcome.      *)
-EXTENDS Splitters, SequencesExt, Json
+EXTENDS Splitters, Json
 
 CONSTANTS MaxN, MaxFh, MaxFhLen, MaxW, MaxS, MaxIW, MaxCuts, EmitVectors
 
@@ -11,7 +11,7 @@ VARIABLES stage, cfg
 vars == <<stage, cfg>>
 
 FhSets == { SetToSortSeq(S, <) : S \in { T \in SUBSET (1..MaxFh) : T # {} /\ Cardinality(T) <= MaxFhLen } }
-CutSets(n) == { SetToSortSeq(S, <) : S \in { T \in SUBSET (0..n) : T # {} /\ Cardinality(T) <= MaxCuts } }
+CutSets(n) == UNION { { q \in [1..k -> 0..n] : \A i, j \in 1..k : i # j => q[i] # q[j] } : k \in 1..MaxCuts }   \* every ORDER of every selection
 Sizes(n) == {<<"none", 0>>} \cup { <<"int", k>> : k \in 0..n } \cup { <<"frac", k>> : k \in 1..7 }
 
 Blank == [kind |-> "", n |-> 0, fh |-> <<1>>, wl |-> 0, sl |-> 1, iw |-> 0, sww |-> TRUE,
